@@ -19,10 +19,10 @@ use rip_provider_openresponses::{EventFrameMapper, SseDecoder, ValidationOptions
 use serde_json::Value;
 
 /// events after `[DONE]` are emitted iff they share its chunk (signature chunking|events_after_done)
-const SKIP_KNOWN_AFTER_DONE: bool = true;
+const SKIP_KNOWN_AFTER_DONE: bool = false;
 /// U+FFFD count for a truncated >=2-byte sequence depends on the carry-over buffer
 /// (signature chunking|invalid_utf8_replacement_runs)
-const SKIP_KNOWN_UTF8_RUNS: bool = true;
+const SKIP_KNOWN_UTF8_RUNS: bool = false;
 
 #[derive(Debug, Clone, PartialEq)]
 enum Kind {
